@@ -75,9 +75,10 @@ func rangeOracle(size int64, hdr string) rangeExp {
 		return rangeExp{ok: true, first: f.Int64(), last: size - 1}
 	}
 	l, ok := parseNat(b)
-	if !ok || l.Cmp(maxInt63) > 0 || f.Cmp(l) > 0 {
+	if !ok || f.Cmp(l) > 0 {
 		return rangeExp{}
 	}
+	// (a last position of any magnitude is well formed and only ends beyond the object: clipped)
 	last := size - 1
 	if l.Cmp(big.NewInt(last)) < 0 {
 		last = l.Int64()
@@ -124,9 +125,9 @@ func rangeHeaders(n int64) []string {
 			add("bytes=" + f + "-" + l)
 		}
 	}
-	for _, h := range []string{"bytes=", "bytes=1", "bytes=a-b", "bytes=1-2-3", "bytes=--1", "bytes=-", "bytes", "", "boats=0-1", "BYTES=0-1", "Bytes=0-1", "bytes=0-1,2-3", "bytes=0-0,-1", "bytes= 1 - 2 ", "bytes=1 -2", "bytes= -2", "bytes=1- ", "bytes=0x1-2", "bytes=1-2;q=1", "bytes=１-2", "bytes=+1-2", "bytes=1-+2", "bytes=1e0-2", " bytes=0-1", "bytes =0-1",
+	for _, h := range []string{"bytes=", "bytes=1", "bytes=a-b", "bytes=1-2-3", "bytes=--1", "bytes=-", "bytes", "", "boats=0-1", "BYTES=0-1", "Bytes=0-1", "bytes=0-1,2-3", "bytes=0-0,-1", "bytes= 1 - 2 ", "bytes=1 -2", "bytes= -2", "bytes=1- ", "bytes=0x1-2", "bytes=1-2;q=1", "bytes=１-2", "bytes=+1-2", "bytes=1-+2", "bytes=+1-", "bytes=-+2", "bytes=0--0", "bytes=+0-+0", "bytes=-0", "bytes=0-0", "bytes=-00", "bytes=00-01", "bytes=1e0-2", " bytes=0-1", "bytes =0-1",
 		"bytes=0 1-0 2", "bytes=0 0-0 1", "bytes=0 1-", "bytes=-0 1", "bytes=0\t1-2", "bytes=1-0 2", "bytes=0-1 ,", "bytes=0-1, ",
-		"bytes=\u00a01-2", "bytes=1\u2003-2", "bytes=-\u30001", "bytes=0-1\u0085", "bytes=0-1,", "bytes=,0-1", "bytes=,"} {
+		"bytes=\u00a01-2", "bytes=1\u2003-2", "bytes=-\u30001", "bytes=0-1\u0085", "bytes=0-1,", "bytes=,0-1", "bytes=,", "bytes=0-1\nbytes=4-5", "bytes=0-1\ngarbage", "bytes=2-3\n1-1"} {
 		add(h)
 	}
 	return out
@@ -134,7 +135,7 @@ func rangeHeaders(n int64) []string {
 
 func runC11(c *engine.Ctx) {
 	c.Rule = "case = (object size 0..N, Range header from the menu: every first/last/suffix value in -1..N+2 and around 2^31/2^63/2^64/10^30, whitespace variants, malformed specs, other units, multiple ranges) on every backend (and, on the memory backend, of an archived and of the current version read by versionId in a versioned bucket), compared with the arithmetic oracle and across backends; distinct_nontrivial = distinct (size, header) cases that are served as a satisfiable range"
-	c.Assumptions = append(c.Assumptions, "200 and 206 are both accepted for a served range (statement does not fix it)", "multi-range headers: 416 or the whole object (no other failure, as the statement says), identical on all backends", "whitespace in the spec may be trimmed (then served correctly) or rejected", "an explicit '+' sign is treated like whitespace: served as the number or rejected")
+	c.Assumptions = append(c.Assumptions, "200 and 206 are both accepted for a served range (statement does not fix it)", "multi-range headers: 416 or the whole object (no other failure, as the statement says), identical on all backends", "optional whitespace (space, tab) around the spec and its numbers may be trimmed (then served correctly) or rejected", "a Range header sent on two lines is the comma-joined list, i.e. a multi-range")
 	N := int64(8)
 	kinds := drv.AllKinds
 	if !quick(c) {
@@ -227,6 +228,10 @@ func runC11(c *engine.Ctx) {
 			if h != "" {
 				hdr = drv.H("Range", h)
 			}
+			if i := strings.Index(h, "\n"); i >= 0 {
+				// two header lines; the header to judge is the comma-joined list
+				hdr = drv.H("Range", h[:i], "Range", h[i+1:])
+			}
 			r := w.Do(drv.Req{Method: "GET", Path: fmt.Sprintf("/aaa/o%d", sz), Query: queries[sz], Header: hdr})
 			c.Add(0, 0, 0, 1)
 			body := bodies[sz]
@@ -256,9 +261,12 @@ func runC11(c *engine.Ctx) {
 				}
 				return
 			}
+			if strings.Contains(h, "\n") {
+				h = strings.Replace(h, "\n", ",", 1)
+			}
 			exp := rangeOracle(sz, h)
 			alt := exp
-			hs := strings.ReplaceAll(stripSpaces(h), "+", "")
+			hs := stripSpaces(h)
 			variant := hs != h
 			if variant {
 				alt = rangeOracle(sz, hs)
